@@ -63,15 +63,12 @@ func (r *c06Rec) take() []int {
 	return out
 }
 
+// c06Quiesce waits until the goroutines started since base was taken have ended (the client
+// of these suites is not connected: nothing else runs).  Given up only when the number of
+// goroutines has not changed for c06StallLimit.
 func c06Quiesce(base int) bool {
-	deadline := time.Now().Add(10 * time.Second)
-	for runtime.NumGoroutine() > base {
-		if time.Now().After(deadline) {
-			return false
-		}
-		time.Sleep(20 * time.Microsecond)
-	}
-	return true
+	return c06Await(func() bool { return runtime.NumGoroutine() <= base },
+		func() string { return itoa(runtime.NumGoroutine()) }, c06StallLimit)
 }
 
 func c06Ints(l []int) string {
@@ -239,7 +236,7 @@ func runTableCase(c Case) Result {
 			}
 			h := add(op, cmd, false)
 			if !c06Quiesce(base) {
-				fail("deadline-never-fires", "AddTmp(%q, 1ms): the deadline goroutine did not finish within 10s", cmd)
+				fail("deadline-never-fires", "AddTmp(%q, 1ms): the deadline goroutine made no progress for a minute", cmd)
 			}
 			cl2 := newClosed()
 			closed := len(cl2) == 1 && cl2[0] == len(hs)-1
@@ -363,7 +360,7 @@ func runTableCase(c Case) Result {
 			rec.take()
 			cl.RunHandlers(&girc.Event{Command: cmd, Echo: echo})
 			if !c06Quiesce(base) {
-				fail("handlers-never-finish", "RunHandlers(%q): handler goroutines still running after 10s", cmd)
+				fail("handlers-never-finish", "RunHandlers(%q): the handler goroutines made no progress for a minute", cmd)
 			}
 			inv := rec.take()
 			closed := newClosed()
@@ -517,6 +514,29 @@ func runTmpDone(c Case) Result {
 	if len(c) < 3 {
 		return Result{Obs: "?args"}
 	}
+	// mode "d": the remover must act before the deadline passes.  Should the machine be so
+	// slow that half the deadline is gone when the remover returns, the attempt says nothing
+	// about that order and is repeated with a deadline four times as long; a suspected stall
+	// is repeated once.  Neither decides the verdict.
+	dl := 40 * time.Millisecond
+	var res Result
+	stalls := 0
+	for try := 0; try < 6; try++ {
+		var raced, stalled bool
+		res, raced, stalled = tmpDoneOnce(c, dl)
+		if stalled && stalls == 0 {
+			stalls++
+			continue
+		}
+		if !raced {
+			break
+		}
+		dl *= 4
+	}
+	return res
+}
+
+func tmpDoneOnce(c Case, deadline time.Duration) (res Result, raced, stalled bool) {
 	mode, rem, cmd := c[0], c[1], c[2]
 	cl := girc.New(drive.BaseConfig())
 	base := runtime.NumGoroutine()
@@ -525,8 +545,9 @@ func runTmpDone(c Case) Result {
 	var once sync.Once
 	var dl time.Duration
 	if mode == "d" {
-		dl = 15 * time.Millisecond
+		dl = deadline
 	}
+	t0 := time.Now()
 	cuid, done := cl.Handlers.AddTmp(cmd, dl, func(_ *girc.Client, _ girc.Event) bool {
 		once.Do(func() { close(entered) })
 		<-gate
@@ -536,11 +557,17 @@ func runTmpDone(c Case) Result {
 		// in a goroutine of its own: nothing here relies on RunHandlers returning while a
 		// background handler is still running
 		go cl.RunHandlers(&girc.Event{Command: strings.ToUpper(cmd)})
-		select {
-		case <-entered:
-		case <-time.After(10 * time.Second):
+		in := false
+		if !c06Await(func() bool {
+			select {
+			case <-entered:
+				in = true
+			default:
+			}
+			return in
+		}, func() string { return itoa(runtime.NumGoroutine()) }, c06StallLimit) {
 			close(gate)
-			return Result{Obs: "?not-invoked", Oracle: "missed-delivery: temporary handler not invoked", Sig: "stuck"}
+			return Result{Obs: "?not-invoked", Oracle: "missed-delivery: temporary handler not invoked", Sig: "stuck"}, false, true
 		}
 	}
 	r1 := "-"
@@ -552,6 +579,7 @@ func runTmpDone(c Case) Result {
 	case "X":
 		cl.Handlers.ClearAll()
 	}
+	raced = mode == "d" && rem != "-" && time.Since(t0) > deadline/2
 	close(gate)
 	quiet := c06Quiesce(base)
 	closed := false
@@ -560,14 +588,77 @@ func runTmpDone(c Case) Result {
 		closed = true
 	default:
 	}
-	res := Result{Obs: "ok1=" + r1 + ";closed=" + B(closed), Sig: mode + rem}
+	res = Result{Obs: "ok1=" + r1 + ";closed=" + B(closed), Sig: mode + rem}
 	switch {
 	case !quiet:
-		res.Oracle = "handlers-never-finish: goroutines still running after 10s"
+		res.Oracle = "handlers-never-finish: the goroutines of the handlers made no progress for a minute"
 	case !closed && rem == "-":
 		res.Oracle = "tmp-done-not-closed: the function returned true / the deadline passed, done is still open"
 	case !closed:
 		res.Oracle = "tmp-done-not-closed-after-removal: the function returned true / the deadline passed after somebody else removed the handler; done is never closed"
+	}
+	return res, raced, !quiet
+}
+
+// ---- dispatch.panic: a panicking handler with a recover function, in a process of its own ----
+//
+// Case: kind ("fg" Add, "bg" AddBg, "tmp" AddTmp), cmd.  A wildcard recorder and a handler of
+// that kind which always panics are registered, RecoverFunc is installed; two events are run.
+// The statement: the panic does not stop later events from being delivered (and the recover
+// function is told).  An unrecovered panic in a goroutine kills the process, so the case runs
+// in a child process (Isolated): the death of the child is the verdict panic-not-isolated
+// with the case as replay, not the death of the run.
+func panicDirect(c Case) Result {
+	if len(c) < 2 {
+		return Result{Obs: "?args"}
+	}
+	kind, cmd := c[0], c[1]
+	evCmd := strings.ToUpper(cmd)
+	if evCmd == "*" {
+		evCmd = "FOO"
+	}
+	var mu sync.Mutex
+	recovered, delivered, panicked := 0, 0, 0
+	cfg := drive.BaseConfig()
+	cfg.RecoverFunc = func(_ *girc.Client, _ *girc.HandlerError) { mu.Lock(); recovered++; mu.Unlock() }
+	cl := girc.New(cfg)
+	cl.Handlers.Add("*", func(_ *girc.Client, _ girc.Event) { mu.Lock(); delivered++; mu.Unlock() })
+	boom := func() { mu.Lock(); panicked++; mu.Unlock(); panic("c06: handler panic") }
+	switch kind {
+	case "bg":
+		cl.Handlers.AddBg(cmd, func(_ *girc.Client, _ girc.Event) { boom() })
+	case "tmp":
+		cl.Handlers.AddTmp(cmd, 0, func(_ *girc.Client, _ girc.Event) bool { boom(); return false })
+	default:
+		cl.Handlers.Add(cmd, func(_ *girc.Client, _ girc.Event) { boom() })
+	}
+	count := func() (int, int, int) { mu.Lock(); defer mu.Unlock(); return recovered, delivered, panicked }
+	oracle := ""
+	for round := 1; round <= 2; round++ {
+		base := runtime.NumGoroutine()
+		cl.RunHandlers(&girc.Event{Command: evCmd})
+		if !c06Quiesce(base) && oracle == "" {
+			oracle = "handlers-never-finish: the goroutines of the handlers made no progress for a minute"
+		}
+		// the recover function has been told about every panic so far
+		if !c06Await(func() bool { r, _, p := count(); return r >= p }, func() string {
+			r, d, p := count()
+			return itoa(r) + "/" + itoa(d) + "/" + itoa(p)
+		}, c06StallLimit) && oracle == "" {
+			oracle = "panic-not-isolated: a handler panicked and the recover function was never called"
+		}
+	}
+	r, d, p := count()
+	if oracle == "" && (d != 2 || p != 2 || r != 2) {
+		oracle = fmt.Sprintf("panic-not-isolated: two events, the wildcard handler saw %d, the panicking handler ran %d times, the recover function was called %d times", d, p, r)
+	}
+	return Result{Obs: fmt.Sprintf("recovered=%d;delivered=%d;panicker=%d", r, d, p), Oracle: oracle, Sig: kind}
+}
+
+func runPanicCase(c Case) Result {
+	res := Isolated("dispatch.panic", c, panicDirect)
+	if strings.HasPrefix(res.Oracle, "process-death:") {
+		res.Oracle = "panic-not-isolated: with a recover function installed the panic of the handler killed the process — " + strings.TrimPrefix(res.Oracle, "process-death: ")
 	}
 	return res
 }
@@ -598,7 +689,13 @@ func init() {
 			}
 		},
 		Gen: genTableCase,
-		Run: runTableCase,
+		Run: func(c Case) Result {
+			res := runTableCase(c)
+			if strings.HasPrefix(res.Oracle, "handlers-never-finish") || strings.HasPrefix(res.Oracle, "deadline-never-fires") {
+				res = runTableCase(c) // a suspected stall is re-run once before it is reported
+			}
+			return res
+		},
 	})
 	Register(&Suite{
 		Name: "dispatch.tmpdone",
@@ -619,5 +716,23 @@ func init() {
 			return Case{Pick(r, "d", "r"), Pick(r, "-", "R", "C", "X"), Pick(r, "FOO", "Foo", "bar", "*", "PRIVMSG")}
 		},
 		Run: runTmpDone,
+	})
+	Register(&Suite{
+		Name: "dispatch.panic",
+		Prop: []string{"C06"},
+		Fixed: func() []Case {
+			var out []Case
+			for _, k := range []string{"fg", "bg", "tmp"} {
+				for _, cmd := range []string{"FOO", "foo", "*"} {
+					out = append(out, Case{k, cmd})
+				}
+			}
+			return out
+		},
+		Exhaustive: "every kind of handler (Add, AddBg, AddTmp) panicking with a recover function installed, on a command and on the wildcard",
+		Gen: func(r *rand.Rand) Case {
+			return Case{Pick(r, "fg", "bg", "tmp"), Pick(r, "FOO", "Foo", "bar", "*", "PRIVMSG", "notice")}
+		},
+		Run: runPanicCase,
 	})
 }
